@@ -147,7 +147,7 @@ Qed.
 
 (* ------------------------------------------------------------------ histories *)
 Definition is_plain (st : bstep) : bool :=
-  match st with BCreate _ _ | BWrite _ _ _ | BErase _ | BDeleteMany _ => true | _ => false end.
+  match st with BCreate _ _ | BWrite _ _ _ | BErase _ | BDeleteMany _ | BCreateU _ _ _ _ | BWriteU _ _ _ => true | _ => false end.
 
 (* an ordinary write through the hub, outside any doInTransaction: durable at once -- the committed table becomes the
    table with that write, nothing else changes -- unless a transaction holds the write lock: then it raises and changes nothing *)
@@ -160,10 +160,13 @@ Lemma plain_write_proof :
 Proof.
   intros g t n st Hr Hp. unfold plain_step. rewrite Hr. split.
   - intros Hl. rewrite Hl. unfold body_table, body_result. destruct st; cbn in Hp; try discriminate; cbn [body_run fst snd].
-    + destruct (tbl_insert [a; b] (g_committed g)) as [id v']. reflexivity.
+    + destruct (tbl_insert [a; b; None] (g_committed g)) as [id v']. reflexivity.
     + reflexivity.
     + reflexivity.
     + reflexivity.
+    + destruct (clash ucol (g_committed g) None u); [destruct guard; reflexivity|].
+      destruct (tbl_insert [a; b; u] (g_committed g)) as [id v']. reflexivity.
+    + destruct (upd_clash ucol (g_committed g) id u); [destruct guard; reflexivity|reflexivity].
   - intros t' Hl. rewrite Hl. reflexivity.
 Qed.
 
@@ -192,4 +195,42 @@ Proof.
   destruct (Nat.ltb t (length (h_plain h))) eqn:L.
   - apply Nat.ltb_lt in L. apply nth_set_nth_same. exact L.
   - apply Nat.ltb_ge in L. rewrite set_nth_oob by exact L. apply nth_overflow. exact L.
+Qed.
+
+(* ------------------------------------------------------------------ statements refused by the UNIQUE column *)
+Lemma refused_guarded_step_proof :
+  forall (tb : table) (cached : list Z) (rest : list bstep) (k : nat) (created : list Z),
+    (forall a b u, clash ucol tb None u = true ->
+       body_run tb cached (BCreateU true a b u :: rest) k created = body_run tb cached rest (S k) created) /\
+    (forall id u, upd_clash ucol tb id u = true ->
+       body_run tb cached (BWriteU true id u :: rest) k created = body_run tb cached rest (S k) created) /\
+    (forall id u, get_ok tb cached id = true -> upd_clash ucol tb id u = true ->
+       body_run tb cached (BUpdateU true id u :: rest) k created = body_run tb (add_id id cached) rest (S k) created).
+Proof.
+  intros tb cached rest k created. split; [|split].
+  - intros a b u H. cbn [body_run]. rewrite H. reflexivity.
+  - intros id u H. cbn [body_run]. rewrite H. reflexivity.
+  - intros id u Hg H. cbn [body_run]. rewrite Hg, H. reflexivity.
+Qed.
+
+Lemma refused_unguarded_step_proof :
+  forall (tb : table) (cached : list Z) (rest : list bstep) (k : nat) (created : list Z),
+    (forall a b u, clash ucol tb None u = true ->
+       body_run tb cached (BCreateU false a b u :: rest) k created = (Raised XDuplicate k, tb)) /\
+    (forall id u, upd_clash ucol tb id u = true ->
+       body_run tb cached (BWriteU false id u :: rest) k created = (Raised XDuplicate k, tb)).
+Proof.
+  intros tb cached rest k created. split.
+  - intros a b u H. cbn [body_run]. rewrite H. reflexivity.
+  - intros id u H. cbn [body_run]. rewrite H. reflexivity.
+Qed.
+
+Lemma refused_step_keeps_view_proof :
+  forall (g : gst) (t : nat) old is_thr view cached rest k created a b u,
+    ts_phase (thread g t) = PRun old is_thr view cached (BCreateU true a b u :: rest) k created ->
+    locked_by_other g t = false -> clash ucol (tview g view) None u = true ->
+    tick g t = set_thread (with_glock g (Some t)) t (ts_slot (thread g t))
+                 (PRun old is_thr (Some (tview g view)) cached rest (S k) created).
+Proof.
+  intros g t old is_thr view cached rest k created a b u Hph Hl Hc. unfold tick. rewrite Hph. cbv zeta. rewrite Hl, Hc. reflexivity.
 Qed.
